@@ -42,6 +42,12 @@ def validate_sessions(ck, trace, parts, describe, label, retry_kind=None):
         for t in r.tuples:
             if t[0] == "SKIP":
                 skipped += 1
+            if t[0] == "LOG-OK":
+                ck.cov["vacuity"]["tool_log_lines_conform"] = ck.cov["vacuity"].get("tool_log_lines_conform", 0) + 1
+            if t[0] == "LOG-DRIFT":
+                # outside the listed properties: reported, never a violation
+                ck.cov["vacuity"]["tool_log_lines_drift"] = ck.cov["vacuity"].get("tool_log_lines_drift", 0) + 1
+                log("LOG-DRIFT (not a violation): `%s -O%s%s` logged %s" % (t[3], t[4], " --verbose" if t[5] else "", t[2]))
             if t[0] != "MISMATCH":
                 continue
             e = json.loads(t[2])
@@ -68,7 +74,7 @@ def validate_sessions(ck, trace, parts, describe, label, retry_kind=None):
     if timed:
         work = tmpdir("retry_%s_%s" % (retry_kind, label))
         cpath = os.path.join(work, "cases.json")
-        keys = {"dbg": ("prog", "script"), "repl": ("lines",), "cli": ("sub", "level", "fileKind", "file", "stdin", "kind", "bound")}[retry_kind]
+        keys = {"dbg": ("prog", "script"), "repl": ("lines",), "cli": ("sub", "level", "fileKind", "file", "stdin", "kind", "bound", "verbose")}[retry_kind]
         cases = [{k: e[k] for k in keys} for e in timed]
         for c in cases:
             c["timeout_ms"] = 30000
@@ -412,9 +418,10 @@ def scenarios(rng, quick):
         txt = ("형" + "?♥!" * (depth // 2)).encode()
         out.append({"sub": "check", "level": 0, "fileKind": "ok", "file": list(txt), "stdin": [], "kind": "deep"})
         out.append({"sub": "run", "level": 2, "fileKind": "ok", "file": list(txt), "stdin": [], "kind": "deep"})
-    for o in out:
+    for i, o in enumerate(out):
         o["bound"] = 600
         o["timeout_ms"] = 1500
+        o["verbose"] = i % 3 == 0        # the tool's log is modelled too (HyCli!Prelude)
     return out
 
 
@@ -432,7 +439,7 @@ def check_c13(pid, tier, seed, replay):
         work = tmpdir("c13_replay")
         cpath = os.path.join(work, "cases.json")
         e = pl["event"]
-        M.write_cases(cpath, [{k: e[k] for k in ("sub", "level", "fileKind", "file", "stdin", "kind", "bound", "timeout_ms")}])
+        M.write_cases(cpath, [{k: e[k] for k in ("sub", "level", "fileKind", "file", "stdin", "kind", "bound", "timeout_ms", "verbose") if k in e}])
         validate_sessions(ck, run_cli("cli", cpath, "replay"), 1, describe_cli, "replay")
         return ck.finish()
     quick = tier == "quick"
